@@ -1,6 +1,6 @@
 SPECIFICATION TraceSpec
 CONSTANTS
-  MaxRound = 16
+  MaxRound = 24
   CheckConformance = TRUE
 INVARIANTS OneVotePerRound PrecommitNeedsPolka NoPrevoteAgainstLock DecisionNeedsMaj Agreement
 CONSTRAINT Mark
